@@ -341,7 +341,8 @@ class EquationSolver(object):
         # was unhappy if they were not set.
         had_evaluation_errors = False
         last_error = False
-        while relative_error > err_toler:
+        # A NaN error (an iterate overflowed) is not convergence: keep iterating until the cap.
+        while not (relative_error <= err_toler):
             if is_trace_step:
                 #Logger('\t'.join([str(num_tries), str(relative_error)] + [str(initial[x]) for x in trace_keys]),
                 #       log='step')
